@@ -15,7 +15,7 @@ from typing import (
 
 from ..exc import ExtensionError, SDLError
 from ..lang import ast as _ast, parse
-from ..schema import NamedType, ObjectType, Schema
+from ..schema import SPECIFIED_DIRECTIVES, NamedType, ObjectType, Schema
 from .ast_type_builder import ASTTypeBuilder
 from .schema_directives import TSchemaDirective, apply_schema_directives
 
@@ -24,6 +24,8 @@ TTypeExtension = TypeVar("TTypeExtension", bound=Type[_ast.TypeExtension])
 
 
 __all__ = ("build_schema", "extend_schema")
+
+_SPECIFIED_DIRECTIVE_NAMES = frozenset(d.name for d in SPECIFIED_DIRECTIVES)
 
 
 def build_schema(
@@ -105,9 +107,11 @@ def build_schema_ignoring_extensions(
         ),
     )
 
+    # Specified directives are never rebuilt (same as specified types).
     directives = [
         builder.build_directive(directive_def)
-        for directive_def in directive_defs.values()
+        for name, directive_def in directive_defs.items()
+        if name not in _SPECIFIED_DIRECTIVE_NAMES
     ]
 
     # Cast is safe as type defs will always lead to named types and not wrapped types
